@@ -13,3 +13,5 @@ require (
 )
 
 require github.com/robfig/cron/v3 v3.0.1
+require github.com/mattn/go-runewidth v0.0.16
+require github.com/rivo/uniseg v0.4.7
